@@ -22,8 +22,9 @@ const O_PROCESS: u8 = 3;
 const O_REWIRE_REMOVE: u8 = 4;
 const O_REWIRE_ADD: u8 = 5;
 const O_REPLACE_NODE: u8 = 6;
+const O_ADD_EDGES_MANY: u8 = 7; // a, b = nodes, c = how many parallel edges (fan-in far above the node count)
 
-static OPS: [OpSpec; 7] = [
+static OPS: [OpSpec; 8] = [
     OpSpec { name: "add_node", shrink: 6 },
     OpSpec { name: "add_edge", shrink: 3 },
     OpSpec { name: "warmup_process", shrink: 1 },
@@ -31,6 +32,7 @@ static OPS: [OpSpec; 7] = [
     OpSpec { name: "remove_edge", shrink: 1 },
     OpSpec { name: "add_edge_after_warmup", shrink: 3 },
     OpSpec { name: "replace_node", shrink: 7 },
+    OpSpec { name: "add_many_parallel_edges", shrink: 7 },
 ];
 
 const F_ARMED: usize = 0;
@@ -43,6 +45,7 @@ const P_EIGHT_NODES: usize = 0;
 const P_ARMED_10: usize = 1;
 const P_MULTI_EDGE: usize = 2;
 const P_STACK_BEYOND_NODES: usize = 3;
+const P_WIDE_FAN_IN: usize = 4;
 
 /// What one `process(out)` call demands from the processor's two vectors: the deepest the
 /// traversal stack gets (petgraph's DfsPostOrder pushes every not-yet-discovered neighbour, so a
@@ -103,6 +106,9 @@ fn drive<W: Wrap, G: GraphLike<W>>(src: &mut Source, obs: &mut Observer) -> Resu
             }
             if !warm {
                 if done < n_build {
+                    if live_n >= 2 && r.chance(1, 60) {
+                        return Some(Op::new(O_ADD_EDGES_MANY, r.range(0, live_n as i64 - 1), r.range(0, live_n as i64 - 1), *r.pick(&[40i64, 300, 1100, 2100])));
+                    }
                     if live_n < 2 || (live_n < 8 && r.chance(2, 5)) {
                         return Some(Op::new(O_ADD_NODE, r.range(0, N_KINDS - 1), *r.pick(&[0i64, 1, 1, 2, 2, 3]), r.range(0, 4000)));
                     }
@@ -176,6 +182,26 @@ fn drive<W: Wrap, G: GraphLike<W>>(src: &mut Source, obs: &mut Observer) -> Resu
                 g.connect(NodeIndex::new(a), NodeIndex::new(b));
                 m.edges.push((a, b));
                 rewired = warm;
+            }
+            O_ADD_EDGES_MANY if !warm => {
+                let (Some(a), Some(b)) = (pick(op.a), pick(op.b)) else {
+                    src.skip_last();
+                    obs.skipped();
+                    continue;
+                };
+                let k = op.c.clamp(1, 2200) as usize;
+                if a == b || m.edges.len() + k > 2400 || !edge_ok(&m, a, b) {
+                    src.skip_last();
+                    obs.skipped();
+                    continue;
+                }
+                obs.tick(op.k);
+                obs.probe(P_MULTI_EDGE);
+                obs.probe(P_WIDE_FAN_IN);
+                for _ in 0..k {
+                    g.connect(NodeIndex::new(a), NodeIndex::new(b));
+                    m.edges.push((a, b));
+                }
             }
             O_REWIRE_REMOVE if warm => {
                 if m.edges.is_empty() {
@@ -357,6 +383,7 @@ impl Scenario for GraphAllocScenario {
             ">= 10 armed process calls in one run",
             "parallel edge",
             "armed process() whose traversal needs a deeper stack than any earlier call (F5 region)",
+            "node with tens to thousands of parallel input edges",
         ]
     }
     fn rule(&self) -> &'static str {
